@@ -16,12 +16,13 @@ RULE = (
     "(a) sequential generated logging programs (all action/message kinds, remote sub-tasks, generators, re-entered "
     "contexts; a third facet lets user fields be named task_uuid / task_level / timestamp, which eliot must overwrite); (b) the same next to 1-3 additional destinations that raise on generated subsets of their calls "
     "(fault masks; Exception subclasses incl. one whose str() raises) while one healthy observer records; (c) structured "
-    "concurrent programs under harness-owned schedules (see C05, whose runs are also checked with these invariants). "
+    "concurrent programs (threads via preserve_context / continue_task / bare, asyncio tasks sharing the parent action) "
+    "under harness-owned schedules at logging-call boundaries / await points (facet concurrent; generator shared with C05). "
     "Oracle: field presence/types, run-wide uniqueness of (task_uuid, task_level), positions of every action exactly 1..n "
     "with start at 1 and end at n, child levels extend parents, emission order == level order per action (remote children "
     "exempt from 'start before later siblings'), children nested in the parent's lifetime; eliot:destination_failure reports "
     "are ordinary members of the tree. Non-trivial: >= 2 nesting levels and (a fault that hits a start or end message, or "
-    ">= 1 remote hand-off, or >= 3 tasks). Distinct = canonical JSON of the case."
+    ">= 1 remote hand-off, or >= 3 tasks, or >= 2 workers interleaved inside one action). Distinct = canonical JSON of the case."
 )
 ASSUMPTIONS = [
     "failing field serializers are excluded (the property excludes them)",
@@ -179,6 +180,33 @@ def faults_strategy():
     )
 
 
+def check_concurrent(case):
+    """Structured concurrent programs (threads / asyncio tasks) under generated schedules: same invariants."""
+    from .. import conc
+
+    info = {"switches": 0, "max_depth": 0, "tasks": 0, "messages": 0}
+    for plan in case["plans"]:
+        world, messages = conc.run_case_once(case, plan)
+        require(not world.errors, "context-leak", lambda: "; ".join(world.errors[:3]))
+        inv = invariants.check_messages(messages, causal=True)
+        info["switches"] = max(info["switches"], world.scheduler_switches)
+        info["max_depth"] = max(info["max_depth"], inv["max_depth"])
+        info["tasks"] = max(info["tasks"], inv["tasks"])
+        info["messages"] += len(messages)
+    return info
+
+
+def classify_concurrent(case, info):
+    labels = ["mode:" + case["mode"], "workers=%d" % len(case["workers"]), "switches=%d" % min(info["switches"], 8), "depth=%d" % min(info["max_depth"], 6)]
+    return info["max_depth"] >= 2 and info["switches"] >= 2, labels
+
+
+def concurrent_strategy():
+    from . import c05
+
+    return st.one_of(c05.strategy("thread"), c05.strategy("async"))
+
+
 def _known_f7(facet, case, violation):
     # explicit finish() inside the action's own context + a destination that
     # rejects that end message: the report is logged after the end message
@@ -193,4 +221,5 @@ FACETS = [
     Facet("sequential", seq_strategy, check_seq, classify_seq, quick=1000, thorough=30000),
     Facet("faults", faults_strategy, check_faults, classify_faults, quick=800, thorough=20000),
     Facet("colliding-names", collide_strategy, check_seq, classify_collide, quick=500, thorough=10000),
+    Facet("concurrent", concurrent_strategy, check_concurrent, classify_concurrent, quick=300, thorough=5000),
 ]
